@@ -85,11 +85,14 @@ def run(res):
     step = 1 if thorough else 4
     # (mutants that make the library produce more than ~50k numbers are left to the oracle)
     midx = [i for i in range(0, len(qs), step) if len(ia[i]) < 400000]
-    msub = lib.run_model([qs[i] for i in midx])
+    # the list-based model can take minutes where the real decoder fills a vector (a mutant declaring
+    # millions of zero-bit numbers): such lines answer "modeltimeout" and are left to the oracle
+    msub = lib.run_model([qs[i] for i in midx], line_timeout=20)
     ma = [None] * len(qs)
     for i, m in zip(midx, msub):
-        ma[i] = m
+        ma[i] = None if m == "modeltimeout" else m
     res.count("model_diffed", len(msub))
+    res.count("model_timeouts", sum(1 for m in msub if m == "modeltimeout"))
     t2 = time.time()
     ir = lib.run_impl(qs[::5], release=True, shards=15, timeout=2400)
     res.notes.append("wall: debug impl %.0fs (%d queries), model %.0fs (%d), release impl %.0fs (%d)" % (t1 - t0, len(qs), t2 - t1, len(midx), time.time() - t2, len(qs[::5])))
